@@ -33,7 +33,21 @@ MANIFEST = {
             "(1-3 Recipient IDs each; equal Recipient IDs - also the empty one - under different ID Contexts, equal ID Contexts with "
             "different Recipient IDs, contexts without ID Context, the client's context first / later / absent) are compared with S "
             "byte for byte and the selected (context, recipient) position with M, and stores built step by step through the API "
-            "(coap_context_oscore_server, coap_new/delete_oscore_recipient) with direct oscore_find_context() calls with M and S; every single-bit flip and truncation of sampled datagrams must be rejected "
+            "(coap_context_oscore_server, coap_new/delete_oscore_recipient) with direct oscore_find_context() calls with M and S; "
+            "SEVERAL CLIENTS WITH DIFFERENT CONTEXTS BEHIND ONE SERVER SESSION (the hop from a proxy): theorems "
+            "interleaved_contexts_roundtrip (S: after the server verified a request, whatever requests for its other contexts, forged "
+            "requests and responses to other tokens follow, the token stays bound to that request's binding AND context, and every "
+            "response protected for it is unprotected by that client to the server's message) and response_ctx_is_request_ctx_impl "
+            "(M: the recipient context libcoap takes a response's Sender Context from, association->recipient_ctx, is the one of the "
+            "latest request with the response's token for every sequence of decrypt / protect steps, whatever session->recipient_ctx "
+            "has become); on every run 2-4 clients' requests interleave on one server session (fresh and re-used tokens, also re-used "
+            "by another client, lost requests / responses, observations with notifications while other contexts' requests pass) and "
+            "datagrams / recovered messages are compared with S, the server session (recipient_ctx, association of the token, the "
+            "context whose Sender Sequence Number a response consumed) with M; OUTER OPTIONS ADDED ON THE PATH to a protected request "
+            "or response (every class E option of RFC 8613 Figure 5 / RFC 9175, class U and unknown ones; ciphertext and OSCORE "
+            "option untouched) are delivered and the recovered message must be the sender's (class E outer options discarded, 8.2 / "
+            "8.4 step 1; S's unprotect on the same datagram; the merged option list against M's decryptSkips / decryptMerge, which "
+            "split_eq_spec proves equal to S's mergeOpts); every single-bit flip and truncation of sampled datagrams must be rejected "
             "where the RFC protects the bit (a test); helpers (option value, AAD, nonce, key derivation) are compared with M and S.",
     "note": "Not theorems: cryptographic strength / unforgeability ('every modification is rejected' is proved only as 'rejected iff "
             "the recomputed tag differs'). M covers libcoap's OSCORE helper functions (CBOR writers, AAD, nonce, option value, option "
@@ -66,7 +80,8 @@ REQUIRED_THEOREMS = ["ccm_roundtrip", "tamper_detected_iff_tag_mismatch", "optio
                      "association_tracks_latest_request", "association_tracks_latest_request_impl", "response_inputs_eq_spec",
                      "rejected_response_keeps_binding", "sequence_roundtrip", "find_context_eq_spec", "find_context_complete",
                      "find_context_sound", "find_context_none_iff", "select_ctx_eq_find_context", "unprotect_any_eq",
-                     "unprotect_protect_request_any", "request_for_unknown_context_rejected"]
+                     "unprotect_protect_request_any", "request_for_unknown_context_rejected",
+                     "interleaved_contexts_roundtrip", "response_ctx_is_request_ctx_impl"]
 RULE = ("exchanges (one request and 0-3 responses/notifications per line) between a client and a server OSCORE context set up "
         "from master secret / salt / ID context / ids 0..7 bytes: all request methods and response codes, inner/outer option "
         "mixes incl. Observe, Block, Proxy-Scheme, Uri-Host/Port, Hop-Limit, No-Response, unknown options, payload 0..1 KiB, "
@@ -90,18 +105,28 @@ RULE = ("exchanges (one request and 0-3 responses/notifications per line) betwee
         "the selected recipient context against M; store lines (findctx): 4..14 steps of coap_context_oscore_server / "
         "coap_new_oscore_recipient / coap_delete_oscore_recipient and oscore_find_context() lookups (65 % for a held pair, else near "
         "misses; kid context given / NULL / with oscore_r2), every result and the final store against M, the lookups of the kind "
-        "coap_oscore_decrypt_pdu does against S; tamper lines: every single-bit flip and every truncation of a protected "
+        "coap_oscore_decrypt_pdu does against S; interleaved-context lines (oscx): a server with 1..4 contexts (2+ (context, Recipient "
+        "ID) pairs on 9 lines of 10) and ONE server session, 2..4 clients each the peer of another pair, 4..10 steps: a client "
+        "protects a request (fresh token, or a token whose exchange is over / superseded - also one another client used; plain or "
+        "Observe registration; delivered or lost), the server protects a response / notification for a token it holds (own Partial "
+        "IV or not; delivered to the client whose request it answers, lost, or - 5 % - delivered to a client of another context: "
+        "must be rejected), 32 scripted shapes first (request of A, request of B, response to A; A observes while B's requests "
+        "pass; B's request lost; A's token re-used by B); transcript against S, server session trace against M; injection lines "
+        "(oinj): a protected request or response to which 1..3 outer options are added (65 % class E - all 18 numbers -, else "
+        "Uri-Host / Uri-Port / Proxy-Scheme / Hop-Limit or unknown numbers the message does not carry), re-encoded by the harness, "
+        "delivered: datagram and delivery against S, the class E options handed on against the sender's (the property directly), "
+        "the merged option list against M; tamper lines: every single-bit flip and every truncation of a protected "
         "datagram, delivered to freshly set-up endpoints (a TEST, labelled as such); helper lines: option value encode/decode, "
         "AAD, nonce, key derivation against M and S; crypto lines: SHA-256/HMAC/HKDF/AES-CCM of S against GnuTLS and the "
         "published vectors; non-trivial = a line on which the recipient accepted at least one protected message (for a sequence: "
-        "the client accepted a response), a tamper "
+        "the client accepted a response; oinj: the injected datagram was accepted), a tamper "
         "line, or a helper/crypto line with a non-error result")
 TRUSTED_BASE = ["Lean 4.33 kernel; axioms allowed: propext, Classical.choice, Quot.sound (audited per theorem each run)",
                 "harness/oscore.c (contexts from configuration strings and zero-initialised sessions as in tests/test_oscore.c; "
                 "coap_send_internal / coap_send_ack_lkd wrapped; sequences: both sessions live for the whole line, lost / late / "
                 "duplicated delivery is done by the harness), the generators incl. the SeqDomain walker, and string comparison",
-                "M (CoapVerif/Model/Oscore.lean, Model/OscoreAssoc.lean, Model/OscoreCtx.lean) is a hand transcription of libcoap's OSCORE "
-                "helpers, of the places that touch the client's association store and of the context store with oscore_find_context; checked against the compiled code only on the cases run",
+                "M (CoapVerif/Model/Oscore.lean, Model/OscoreAssoc.lean, Model/OscoreCtx.lean, Model/OscoreSrv.lean) is a hand transcription of libcoap's OSCORE "
+                "helpers, of the places that touch the client's association store, of the server session's recipient_ctx / associations and of the context store with oscore_find_context; checked against the compiled code only on the cases run",
                 "GnuTLS (AES-CCM, HMAC-SHA-256) is an oracle on the implementation side, cross-checked against S's own primitives on "
                 "every case run; S's primitives are tested against FIPS/RFC vectors (tests, not proofs)"]
 ASSUMPTIONS = ["cryptographic strength (AEAD unforgeability, HKDF/SHA-256 properties) is not a theorem; what is proved is that "
@@ -128,7 +153,9 @@ SPEC_DECISIONS = ["D14.1 outer code POST/2.04, FETCH/2.05 with Observe", "D14.2 
                   "D14.18 a request names the context whose Recipient ID is its kid and whose ID Context is its kid context (absent = "
                   "empty); the contexts an endpoint holds have pairwise different (Recipient ID, ID Context) (RFC 8613 3.3 deployment "
                   "requirement; the RFC's 'may need to try several' for indistinguishable contexts is not demanded); a request that "
-                  "names no held context is rejected"]
+                  "names no held context is rejected",
+                  "D14.19 the security context associated with a token (RFC 8613 8.3 step 1) is the one the LATEST verified request "
+                  "with that token was verified with, not the context of whatever request the endpoint verified last"]
 RUN_KW = {"timeout": 1200}
 
 # expected values of the published vectors (TESTS of S and of libcoap, keyed by input line)
@@ -673,6 +700,138 @@ def gen_findctx_line(rng):
     return "findctx " + " ".join(steps)
 
 
+# ---- outer options added to a protected datagram on the path (op `oinj`; RFC 8613 8.2 / 8.4 step 1) ----
+CLASS_E = [1, 4, 5, 6, 8, 11, 12, 14, 15, 17, 20, 23, 27, 28, 60, 252, 258, 292]
+OTHER_OUTER = [2, 10, 13, 19, 21, 24, 30, 31, 40, 65, 268, 269, 300, 2048, 2049, 65000, 65001]
+
+
+def gen_oinj_line(rng):
+    """a protected request or response to which an on-path entity ADDS outer options (ciphertext and OSCORE option untouched):
+    1..3 options, mostly of class E (every number of Figure 5 / RFC 9175, whether or not the message carries the option
+    inside), else class U (Uri-Host / Uri-Port / Proxy-Scheme / Hop-Limit) or unknown / unprotected-by-design numbers that
+    the message does not carry.  The recipient must hand on the ORIGINAL class E options only."""
+    while True:
+        secret, salt, idctx, cid, sid = gen_params(rng)
+        if idctx is None or len(idctx) <= 34:
+            break
+    token = G.rbytes(rng, rng.choice([0, 1, 2, 4, 8]))
+    observe = rng.random() < 0.3
+    qopts = gen_options(rng, True, observe)
+    req = G.encode("udp", rng.choice([0, 1]), rng.choice([1, 5]) if observe else rng.choice(REQ_CODES), rng.randint(0, 0xFFFF), token,
+                   qopts, gen_payload(rng)[:300])
+    ropts = gen_options(rng, False, observe and rng.random() < 0.7)
+    rcode = rng.choice(RESP_CODES)
+    if rcode == 129:        # D14.14
+        ropts = [o for o in ropts if o[0] != 252]
+    resp = G.encode("udp", rng.choice([0, 1, 2]), rcode, rng.randint(0, 0xFFFF), token, ropts, gen_payload(rng)[:300])
+    which = rng.choice(["q", "r"])
+    have = {n for n, _ in (qopts if which == "q" else ropts)} | {9}
+    inj = []
+    for _ in range(rng.choice([1, 1, 2, 3])):
+        c = rng.random()
+        if c < 0.65:
+            n = rng.choice(CLASS_E)
+        else:
+            # copied to the unprotected message: not one the message carries (libcoap refuses to build a PDU that repeats a
+            # non-repeatable option), Proxy-Uri not at all (D14.10)
+            cand = [x for x in (OUTER if c < 0.8 else OTHER_OUTER) if x not in have]
+            if not cand:
+                continue
+            n = rng.choice(cand)
+            have.add(n)
+        v = G.rbytes(rng, rng.choice([0, 1, 2, 3])) if n == 6 else gen_optval(rng, n)
+        inj.append((n, v))
+    if not inj:
+        inj.append((60, G.rbytes(rng, rng.choice([0, 1, 2, 4]))))
+    if which == "q" and any(n == 39 for n, _ in inj) and 16 not in have:
+        inj.append((16, b"\x10"))      # D14.14
+    inj.sort(key=lambda o: o[0])
+    return "oinj %s %s %d %d %d %s %s %d %s %s" % (
+        fmt_params(secret, salt, idctx, cid, sid), fmt_params(secret, salt, idctx, sid, cid), min(gen_piv(rng), MAXSEQ), min(gen_piv(rng), MAXSEQ),
+        -1 if rng.random() < 0.5 else rng.randint(0, 0xFFFF), hx(req), hx(resp), rng.choice([0, 1]), which,
+        ",".join("%d:%s" % (n, hx(v)) for n, v in inj))
+
+
+# ---- several clients (contexts) behind ONE server session (op `oscx`; D14.19) -------------------------
+def gen_oscx_line(rng, scenario=None):
+    """a server holding 1..4 contexts (2+ pairs on 9 lines of 10) and ONE server session on which 2..4 clients — each the peer
+    of another (context, Recipient ID) pair — send requests that interleave: request of A, request of B, response to A …;
+    fresh tokens, tokens re-used after the exchange (also by ANOTHER client: the hop's token is the proxy's), requests and
+    responses lost, Observe registrations with notifications while other contexts' requests pass, responses with / without
+    their own Partial IV, 5 % of the responses delivered to a client of another context (must be rejected)."""
+    for _ in range(50):
+        store = gen_server_store(rng)
+        pairs = [(i, j) for i, e in enumerate(store) for j in range(len(e[4]))]
+        if len(pairs) >= 2 or rng.random() < 0.1:
+            break
+    nc = min(len(pairs), rng.choice([2, 2, 2, 3, 3, 4]))
+    clients = rng.sample(pairs, nc)
+    sseq = min(gen_piv(rng), MAXSEQ - 40)
+    cseqs = [min(gen_piv(rng), MAXSEQ - 40) for _ in clients]
+    toks, steps, last = {}, [], None      # token -> {owner, budget, obs}
+
+    def fresh_token():
+        while True:
+            t = G.rbytes(rng, rng.choice([0, 1, 2, 4, 4, 8, 8]))
+            if t not in toks:
+                return t
+
+    def request(k, t, kind, how):
+        steps.append("q %d %s %s" % (k, hx(gen_seq_request(rng, t, kind)), how))
+        x = toks.setdefault(t, {"owner": None, "budget": 0, "obs": False})
+        if how == "d":
+            x.update(owner=k, budget=99 if kind == "reg" else 1, obs=kind == "reg")
+
+    def response(t, how="d", piv=None, to=None):
+        x = toks[t]
+        notif = x["obs"] and rng.random() < 0.85
+        steps.append("r %d %s %d %s" % (x["owner"] if to is None else to, hx(gen_seq_response(rng, t, notif)),
+                                        (1 if rng.random() < 0.3 else 0) if piv is None else piv, how))
+        if x["budget"] < 99:
+            x["budget"] -= 1
+
+    if scenario is not None and nc >= 2:
+        a, b = 0, 1
+        ta, tb = fresh_token(), None
+        if scenario % 4 == 0:       # request of A, request of B, response to A (no / own Partial IV), response to B
+            request(a, ta, "plain", "d"); tb = fresh_token(); request(b, tb, "plain", "d")
+            response(ta, piv=scenario // 4 % 2); response(tb)
+        elif scenario % 4 == 1:     # A observes; B's requests pass between the notifications
+            request(a, ta, "reg", "d"); response(ta)
+            tb = fresh_token(); request(b, tb, "plain", "d"); response(ta); response(tb); response(ta)
+        elif scenario % 4 == 2:     # B's request is lost on the way: the session still answers A with A's context
+            request(a, ta, "plain", "d"); tb = fresh_token(); request(b, tb, "plain", "l")
+            tb2 = fresh_token(); request(b, tb2, "plain", "d"); response(ta, piv=1); response(tb2)
+        else:                       # the token of A's finished exchange is re-used by B
+            request(a, ta, "plain", "d"); response(ta, how=rng.choice(["d", "l"]))
+            request(b, ta, "plain", "d"); tb = fresh_token(); request(a, tb, "plain", "d"); response(ta); response(tb)
+    else:
+        target = rng.randint(4, 10)
+        guard = 0
+        while len(steps) < target and guard < 40:
+            guard += 1
+            can_r = [t for t, x in toks.items() if x["budget"] > 0]
+            if not can_r or rng.random() < 0.5:
+                others = [k for k in range(nc) if k != last]
+                k = rng.choice(others) if others and rng.random() < 0.75 else rng.randrange(nc)
+                reuse = [t for t, x in toks.items() if not x["obs"] and x["budget"] <= 1]
+                if reuse and rng.random() < 0.3:
+                    t, kind = rng.choice(reuse), "plain"
+                else:
+                    t, kind = fresh_token(), "reg" if rng.random() < 0.25 else "plain"
+                request(k, t, kind, "d" if rng.random() < 0.85 else "l")
+                last = k
+            else:
+                t = rng.choice(can_r)
+                to = None
+                if rng.random() < 0.05 and nc > 1:
+                    to = rng.choice([k for k in range(nc) if k != toks[t]["owner"]])
+                response(t, "d" if rng.random() < 0.85 else "l", to=to)
+    return "oscx %d %d %d %s %d %s %s" % (
+        sseq, -1 if rng.random() < 0.3 else rng.randint(0, 0xFFFF), len(store), " ".join(fmt_entry(e) for e in store), nc,
+        " ".join("%d.%d %d" % (i, j, cseqs[k]) for k, (i, j) in enumerate(clients)), " ".join(steps))
+
+
 def gen_tamper_line(rng, small=True):
     secret, salt, idctx, cid, sid = gen_params(rng)
     token = G.rbytes(rng, rng.choice([0, 1, 2, 4]))
@@ -764,6 +923,10 @@ def generate(ctx, escalate=False):
         out.append(gen_oscm_line(rng, unknown=rng.random() < 0.12))
     for i in range(800 * k):
         out.append(gen_findctx_line(rng))
+    for i in range(500 * k):
+        out.append(gen_oinj_line(rng))
+    for i in range(500 * k):
+        out.append(gen_oscx_line(rng, scenario=i if i < 32 else None))
     return out
 
 
@@ -868,6 +1031,43 @@ def judge(ctx, c):
         if isel.strip() != (m or "").strip():
             return ("tie", "context selected: implementation %s but model M (oscore_find_context) says %s" % (isel.strip(), (m or "").strip()))
         return None
+    if op == "oscx":
+        # impl: `seq <transcript> | <trace of the server session>`; driver: S = the transcript (every response protected with the
+        # context of the request it answers, D14.19), M = session->recipient_ctx / the association of the token / the context
+        # whose Sender Sequence Number a response consumed (Model/OscoreSrv.lean)
+        it, _, itr = (i or "").partition(" |")
+        if it != s:
+            return ("spec", "several contexts on one server session, step %s: implementation %s but the RFC 8613 reference (a response "
+                            "is protected with the security context of the request it answers) gives %s" % (
+                                diff_step(it, s), field_diff(it, s), field_diff(s, it)))
+        if itr.strip() != (m or "").strip():
+            return ("tie", "server session (recipient_ctx / association / Sender Context used): implementation %s but model M says %s" % (
+                first_diff(itr.strip(), (m or "").strip()), first_diff((m or "").strip(), itr.strip())))
+        return None
+    if op == "oinj":
+        # impl / S: `dg=<datagram with the added outer options> u=<delivery>`; M: the option list libcoap's two decrypt loops build
+        w = c["input"].split()
+        if i == "setup-fail" and m == "setup-fail":
+            return None
+        mu = re.search(r" u=ok .* opts=(\S+) pl=", i or "")
+        if mu:
+            # the property itself, independent of S: the class E options handed on are the ORIGINAL ones (RFC 8613 8.2 / 8.4 step 1)
+            orig = parse_udp(w[14] if w[17] == "q" else w[15])
+            got = [] if mu.group(1) == "-" else [(int(x.split(":")[0]), x.split(":")[1]) for x in mu.group(1).split(",")]
+            if orig:
+                skip = {6} if w[17] == "r" else set()       # D14.3: the Observe value of a notification is the recipient's
+                want = [(n, hx(v)) for n, v in orig[2] if n in CLASS_E and n not in skip]
+                have = [(n, v) for n, v in got if n in CLASS_E and n not in skip]
+                if want != have:
+                    extra = [n for n, v in have if (n, v) not in want]
+                    return ("spec", "outer option(s) added on the path are handed on with the unprotected message: class E options "
+                                    "delivered %s, the sender's are %s%s" % (have, want, " (option %d is not the sender's)" % extra[0] if extra else ""))
+        if i != s:
+            return ("spec", "outer options added on the path: implementation %s but the RFC 8613 reference (class E outer options are "
+                            "discarded, the others kept) gives %s" % (first_diff(i, s), first_diff(s, i)))
+        if mu and "opts=" + mu.group(1) != (m or "").strip():
+            return ("tie", "merged options: implementation opts=%s but model M (decryptSkips / decryptMerge) says %s" % (short(mu.group(1)), short(m)))
+        return None
     if op == "findctx":
         # impl / M: result of every store operation and lookup + the final store; S: for the lookups of the kind
         # coap_oscore_decrypt_pdu does, the first (context, recipient) pair the request names (`~`: the store is ambiguous)
@@ -908,11 +1108,20 @@ def diff_step(a, b):
     fa, fb = (a or "").split(" "), (b or "").split(" ")
     n = 0
     for k, x in enumerate(fa):
-        if "=" in x and x.split("=")[0] in ("req", "ureq", "resp", "uresp", "uresp2", "late"):
+        if "=" in x and x.split("=")[0] in ("req", "ureq", "resp", "uresp", "uresp2", "late", "dg", "u"):
             n += 1
         if k >= len(fb) or x != fb[k]:
             return "%d (%s)" % (n, x.split("=")[0])
     return "%d (end)" % n
+
+
+def field_diff(a, b):
+    """the first field of `k=v k=v …` line a that differs from b (and what follows, shortened)"""
+    fa, fb = (a or "").split(" "), (b or "").split(" ")
+    for k, x in enumerate(fa):
+        if k >= len(fb) or x != fb[k]:
+            return " ".join(y if len(y) < 90 else y[:80] + "…" for y in fa[k:k + 3])
+    return "(nothing more)"
 
 
 def first_diff(a, b):
@@ -935,6 +1144,10 @@ def nontrivial(c):
         return "uresp=ok" in i or "late=ok" in i
     if op == "oscm":
         return "ureq=ok" in i
+    if op == "oscx":
+        return "uresp=ok" in i
+    if op == "oinj":
+        return " u=ok" in i
     if op == "findctx":
         return re.search(r" f:\d", i) is not None
     if op == "tamper":
@@ -955,6 +1168,15 @@ def classify(c):
         sel = i.rpartition("sel=")[2]
         return "oscm:" + ("no-context" if sel == "none" else "first" if sel == "0.0" else "later") + \
                (":empty-kid" if w[4] == "-" else "") + (":rejected" if "=rej" in i else "")
+    if op == "oinj":
+        nums = [int(x.split(":")[0]) for x in w[18].split(",")]
+        return "oinj:" + w[17] + (":classE" if any(n in CLASS_E for n in nums) else "") + \
+               (":other" if any(n not in CLASS_E for n in nums) else "") + (":rejected" if "u=rej" in i else "")
+    if op == "oscx":
+        tr = i.partition(" |")[2]
+        sel = re.findall(r" s:(\S+)", tr)
+        return "oscx:" + ("interleaved" if len(set(sel)) > 1 else "one-context") + (":observe" if re.search(r",1( |$)", tr) else "") + \
+               (":rejected" if "=rej" in i else "")
     if op == "oseq":
         st = oseq_groups(w[14:])
         qs = [g for g in st if g[0] == "q"]
@@ -990,6 +1212,10 @@ def search(ctx, tie_breaks, proof):
         out.append(gen_oscm_line(rng, unknown=rng.random() < 0.1))
     for i in range(1500):
         out.append(gen_findctx_line(rng))
+    for i in range(1500):
+        out.append(gen_oinj_line(rng))
+    for i in range(1500):
+        out.append(gen_oscx_line(rng))
     out += gen_helper_lines(rng, 6000)
     return out
 
@@ -1033,6 +1259,48 @@ def shrink(ctx, case):
         k = 0
         while k < len(groups) and len(groups) > 1:
             cc = fails(groups[:k] + groups[k + 1:])
+            if cc:
+                groups, best = groups[:k] + groups[k + 1:], cc
+            else:
+                k += 1
+        return best
+    if w[0] in ("oinj", "oscx"):
+        def fails(words):
+            cc = diff_side(ctx, me, [" ".join(words)])[0]
+            v = judge(ctx, cc)
+            if v and v[0] == "spec":
+                cc["why"] = v[1]
+                return cc
+            return None
+        best = case
+        if w[0] == "oinj":
+            # drop the added options one at a time
+            items, k = w[18].split(","), 0
+            while len(items) > 1 and k < len(items):
+                cand = items[:k] + items[k + 1:]
+                cc = fails(w[:18] + [",".join(cand)])
+                if cc:
+                    items, best = cand, cc
+                else:
+                    k += 1
+            return best
+        # oscx: drop steps from the end, then single steps (the line has to fail again to be kept)
+        ns = int(w[3])
+        base = 5 + 5 * ns + 2 * int(w[4 + 5 * ns])
+        size = {"q": 4, "r": 5}
+        groups, k = [], base
+        while k < len(w):
+            n = size.get(w[k], 1)
+            groups.append(w[k:k + n]); k += n
+        flat = lambda gs: w[:base] + [x for g in gs for x in g]
+        while len(groups) > 1:
+            cc = fails(flat(groups[:-1]))
+            if not cc:
+                break
+            groups, best = groups[:-1], cc
+        k = 0
+        while k < len(groups) and len(groups) > 1:
+            cc = fails(flat(groups[:k] + groups[k + 1:]))
             if cc:
                 groups, best = groups[:k] + groups[k + 1:], cc
             else:
